@@ -19,13 +19,18 @@ type SSHReq struct {
 // of the given type (default "session") and send the requests without waiting for
 // replies (a handler that never answers must not block the client).
 type SSHIn struct {
+	User  string   `json:"user,omitempty"`
 	Chan  string   `json:"chan,omitempty"`
 	Extra hx.B     `json:"extra,omitempty"`
 	Reqs  []SSHReq `json:"reqs,omitempty"`
 }
 
 func playSSH(cc net.Conn, in *SSHIn) {
-	cfg := &ssh.ClientConfig{User: "root", Auth: []ssh.AuthMethod{ssh.Password("root")},
+	user := in.User
+	if user == "" {
+		user = "root"
+	}
+	cfg := &ssh.ClientConfig{User: user, Auth: []ssh.AuthMethod{ssh.Password("root")},
 		HostKeyCallback: ssh.InsecureIgnoreHostKey(), Timeout: 3 * time.Second}
 	cc.SetDeadline(time.Now().Add(5 * time.Second))
 	c, chans, reqs, err := ssh.NewClientConn(cc, "lab", cfg)
